@@ -214,6 +214,7 @@ let gname = function
   | GModeUnsupported -> "mode-unsupported" | GScalarShaped -> "scalar-shaped"
   | GReduceDefault -> "reduce-default" | GFlatRawWindow -> "flat-raw-window"
   | GShapeMisfit -> "shape-misfit"
+  | GAliasedStorage -> "aliased-storage"
   | GOther -> "other"
 
 let operand_ids (o : string) : int list =
@@ -232,7 +233,7 @@ let operand_ids (o : string) : int list =
 (* extension point: operand ids of operations added by other driver modules *)
 let extra_operands : (string, string array -> int list) Hashtbl.t = Hashtbl.create 16
 
-let run_prog dt (prog : string) (impl : string) : outcome =
+let run_prog_gen (kept : bool) dt (prog : string) (impl : string) : outcome =
   let ops = Array.of_list (split_ops prog) in
   let isteps = split_steps impl in
   Hashtbl.reset bufnames;
@@ -240,6 +241,9 @@ let run_prog dt (prog : string) (impl : string) : outcome =
   let mout = ref [] and sout = ref [] in
   let stop = ref false in
   let cls = ref "" in
+  let ps = ref empty_pstate in
+  let kept_in : z list list ref = ref [] in   (* the slices as the caller passed them (SPEC: unchanged) *)
+  let slices_str (l : z list list) = String.concat "" (List.mapi (fun i s -> Printf.sprintf " S%d=%s" i (fzs s)) l) in
   Array.iteri (fun i o ->
       if not !stop then begin
         let istep = if i < Array.length isteps then isteps.(i) else "" in
@@ -247,13 +251,23 @@ let run_prog dt (prog : string) (impl : string) : outcome =
         let before = !m in
         let (m', r) = zstep_model !m op in
         m := m';
+        if kept then begin
+          (match op with
+           | ZBase (OT (t, axes)) ->
+             if axes <> [] then kept_in := !kept_in @ [axes];
+             ps := pstep_T !ps t axes (get_t before t) (get_t m' t) (r = RUnit)
+           | ZBase (OUT t) -> ps := pstep_UT !ps t (get_t before t)
+           | ZBase (OTranspose t) -> ps := pstep_transpose !ps t (get_t before t)
+           | _ -> ())
+        end;
         let axes_note = (match op with
             | ZReduce (code, a, axes, _) when r <> RPanic ->
               ";ax=" ^ fzs (zreduce_axes_after before code a axes)
             | _ -> "") in
         let mstr = (match r with
             | RPanic -> "panic"
-            | _ -> status_str dt r ^ axes_note ^ obs_model_str dt m') in
+            | _ -> status_str dt r ^ axes_note ^ obs_model_str dt m'
+                   ^ (if kept then slices_str !ps.p_slices else "")) in
         mout := mstr :: !mout;
         (match !s with
          | None -> sout := "?" :: !sout
@@ -266,7 +280,8 @@ let run_prog dt (prog : string) (impl : string) : outcome =
               s := Some st';
               (* SPEC: the caller's axes slice is left as it was passed *)
               let saxes = (match op with ZReduce (_, _, axes, _) -> ";ax=" ^ fzs axes | _ -> "") in
-              let sstr = status_str dt r' ^ saxes ^ obs_spec_str dt st' in
+              let sstr = status_str dt r' ^ saxes ^ obs_spec_str dt st'
+                         ^ (if kept then slices_str !kept_in else "") in
               sout := sstr :: !sout;
               if !cls = "" && strip_model_only mstr <> sstr then begin
                 (* first step at which the MODEL (the code as it is) leaves the SPEC: the finding
@@ -287,5 +302,9 @@ let run_prog dt (prog : string) (impl : string) : outcome =
   let spec = String.concat " # " (List.rev !sout) in
   { model; spec; cls = !cls }
 
+let run_prog = run_prog_gen false
+
 let () =
-  register2 "prog" (fun a impl -> run_prog a.(0) a.(1) impl)
+  register2 "prog" (fun a impl -> run_prog a.(0) a.(1) impl);
+  (* progk: same programs, additionally observing every caller-owned axes slice after each step *)
+  register2 "progk" (fun a impl -> run_prog_gen true a.(0) a.(1) impl)
